@@ -27,7 +27,8 @@ EXTENDS Integers, Sequences, FiniteSets, TLC, Json
 CONSTANTS Nodes,     \* e.g. {"n1","n2","n3"}
           P,         \* the primary
           Ops,       \* sequence of client commands [node, op, k, v, ver, n]
-          InitStore  \* [key -> <<val, ver>>] present on every node at the start
+          InitStore, \* [key -> <<val, ver>>] present on every node at the start
+          Strategy   \* conflict strategy of the database: "none" | "newer"
 
 Secs == Nodes \ {P}
 Absent == <<"-", -1, FALSE>>     \* <<value, version, live>>
@@ -68,7 +69,13 @@ Refuses(e, ver) == Exists(e) /\ NewVer(e, ver) <= e[2]
 
 ApplySet(n, k, v, ver) ==      \* returns <<new store of n, accepted?, answer: "ok" | "verr" | "error">>
   LET e == store[n][k] IN
-  IF Refuses(e, ver) THEN <<store[n], FALSE, "verr">>
+  IF Refuses(e, ver)
+  THEN IF Strategy = "newer"
+       \* try_resolve_conflict_response: the incoming change carries the younger operation id (ids come
+       \* from one increasing clock and a change gets its id when it is built), so it wins: it is stored
+       \* with the stored version advanced by one and the request counts as processed
+       THEN <<[store[n] EXCEPT ![k] = <<v, e[2] + 1, TRUE>>], TRUE, "ok">>
+       ELSE <<store[n], FALSE, "verr">>
   ELSE <<[store[n] EXCEPT ![k] = <<v, NewVer(e, ver), TRUE>>], TRUE, "ok">>
 
 (* no snapshot happens in this model, so every key is still `New': remove_value drops the entry *)
@@ -107,6 +114,8 @@ ClientOp(o) ==
                /\ replq' = Enq(n, Msg("replicate-remove", o.k, "", 0, 0))
                /\ req' = req          \* never forwarded
                /\ ghost' = IF n # P THEN ghost \cup {"RemoveOnSecondaryLocalOnly"} ELSE ghost
+          \* reads, subscriptions, database selection: nothing is stored (but a node-local counter) or sent
+          [] o.op = "noop" -> UNCHANGED <<store, replq, req, ghost>>
           [] o.op = "increment" ->
                IF n = P
                THEN LET r == ApplyInc(n, o.k, o.n) IN
